@@ -121,6 +121,17 @@ class C28(core.Prop):
         res = mpi2.run(dc, cpu=25)
         self.labels(b, oc)
         fail = res.failure()
+        gave = [rec for rec in res.recs.values() if rec.get("gaveup")]
+        if fail and gave:
+            # a polling loop (Test*, Iprobe) gave up after 20000 calls: the rank then went on WITHOUT its message and left; what the run
+            # died of afterwards (a sender aborting with "receiving rank gone", a deadlock of the others) is only a consequence.  The
+            # root event is the blocked receive: same classification as a deadlock (known two-mailbox / truncation classes, else progress:*)
+            g = gave[0]
+            mode = next((op.get("mode") for op in b.ops[g["r"]] if op["t"] in ("complete", "precv") and b.index.get((g["r"], b.ops[g["r"]].index(op))) == g["i"]), "poll")
+            oc.bad(b.blocked_sig("progress:%s" % mode),
+                   "the program is deadlock-free under every matching MPI allows, yet rank %d polled %d times (%s, operation #%d) without getting its message "
+                   "and went on without it; the run then ended with: %s: %s" % (g["r"], g.get("calls", 0), mode, g["i"], fail[0], fail[1][:600]))
+            return oc
         if fail:
             sig, msg_ = fail
             if sig == "bad-case":
